@@ -1727,6 +1727,47 @@ func ruleLoadGating(c *Ctx, r *Report, rule string) {
 		}
 		uses++
 		okNil := false
+		// handed, together with the error, to a helper that uses it only when the error is nil
+		if call, isArg := pm[ast.Node(id)].(*ast.CallExpr); isArg {
+			if fn, ok := c.callee(call).(*types.Func); ok && fn.Pkg() != nil && fn.Pkg().Path() == bclPath {
+				if hd := c.funcDecls[fn]; hd != nil && hd.Body != nil {
+					pi, ei := -1, -1
+					for k, a := range call.Args {
+						if a == ast.Expr(id) {
+							pi = k
+						}
+						if c.isObj(a, errObj) {
+							ei = k
+						}
+					}
+					if pi >= 0 && ei >= 0 {
+						pObj, eObj := c.paramObj(hd, pi), c.paramObj(hd, ei)
+						all, n := true, 0
+						ast.Inspect(hd.Body, func(x ast.Node) bool {
+							hid, isID := x.(*ast.Ident)
+							if !isID || c.objOf(hid) != pObj {
+								return true
+							}
+							n++
+							good := false
+							for _, f := range splitFacts(c.factsAt(hd.Body, hid)) {
+								be, isB := stripParens(f.Cond).(*ast.BinaryExpr)
+								if isB && isNilIdent(be.Y) && c.isObj(be.X, eObj) && (be.Op == token.EQL) == f.Pos {
+									good = true
+								}
+							}
+							if !good {
+								all = false
+							}
+							return true
+						})
+						if all {
+							okNil = true
+						}
+					}
+				}
+			}
+		}
 		for _, f := range splitFacts(c.factsAt(fd.Body, id)) {
 			be, isB := stripParens(f.Cond).(*ast.BinaryExpr)
 			if !isB || !isNilIdent(be.Y) || !c.isObj(be.X, errObj) {
